@@ -11,7 +11,7 @@
 (*    per iteration, final half-up step) satisfies the relational DivOK    *)
 (*    used in trace validation, for precisions 1..3.                       *)
 (***************************************************************************)
-EXTENDS Ops
+EXTENDS Ops, Json
 CONSTANTS K, GAPMAX
 
 VARIABLES a, b, ph
@@ -55,4 +55,7 @@ DivMech(x, y, P) ==
                IN Mk(x.s * y.s, IF up THEN NAdd(st[1], One) ELSE st[1], st[3])
 DivMechOK == ph = 2 /\ b.sc \in SmallSc =>
   \A P \in 1..3 : DivOK(a, b, P, [d |-> [s |-> DivMech(a, b, P).s, l |-> (IF DivMech(a, b, P).d = <<>> THEN <<>> ELSE <<ToInt(DivMech(a, b, P).d)>>), e |-> DivMech(a, b, P).sc]]) = OK
+\* every small pair is a behaviour for the harness: all spellings of / and % on it
+Wire(y) == [s |-> y.s, l |-> IF y.d = <<>> THEN <<>> ELSE <<ToInt(y.d)>>, e |-> y.sc]
+Emit == (ph = 2 /\ b.sc \in SmallSc) => PrintT(<<"RUN", ToJson([gen |-> "divrem_family", a |-> Wire(a), b |-> Wire(b)])>>)
 =============================================================================
